@@ -119,7 +119,7 @@ def run_tool(args, env=None, stdin_data=None, pieces=None, timeout=120, cwd=None
             off = 0
             try:
                 for n, sl in (pieces or [(len(stdin_data), 0)]):
-                    end = off + n
+                    end = min(off + n, len(stdin_data))
                     while off < end:
                         off += os.write(fd, view[off:end])
                     if sl:
